@@ -76,8 +76,7 @@ Definition unpack_gsi (b : list Z) : gsi :=
   mkGsi (slice 3 8 b) (nth 11 b 0) (slice 12 2 b) (slice 14 2 b) (slice 238 5 b) (slice 253 2 b) (slice 256 8 b).
 
 Record datafile := mkDatafile { f_fps : rate ; f_cct : list Z ; f_teletext : bool ; f_tti_count : Z ;
-                                f_lang : list Z ; f_start : Q ;
-                                f_max_rows : option Z }.    (* None: the attribute was never assigned *)
+                                f_lang : list Z ; f_start : Q ; f_max_rows : Z }.
 
 Definition max_size : Z := 9223372036854775807.
 
@@ -93,7 +92,7 @@ Definition init (g : gsi) (cfg : config) : datafile + error :=
     | StTCP =>
         match py_int (slice 0 2 (g_tcp g)), py_int (slice 2 2 (g_tcp g)), py_int (slice 4 2 (g_tcp g)), py_int (slice 6 2 (g_tcp g)) with
         | Some h, Some m, Some s, Some f => inl (offset_q fps (h, m, s, f))
-        | _, _, _, _ => inr EAttribute          (* except ValueError: LOGGER.error(..., self.gsi.tcp) *)
+        | _, _, _, _ => inl 0%Q                 (* except ValueError: LOGGER.error(...); self.start_offset = 0 *)
         end
     | StStr t =>
         match parse_tc t fps with
@@ -104,15 +103,15 @@ Definition init (g : gsi) (cfg : config) : datafile + error :=
   match start with
   | inr e => inr e
   | inl start =>
-      let '(start, rows) :=
+      let rows :=
         match cf_rows cfg with
-        | MrNone => (start, Some default_teletext_rows)
-        | MrMNR => if teletext then (start, Some default_teletext_rows)
+        | MrNone => default_teletext_rows
+        | MrMNR => if teletext then default_teletext_rows
                    else match py_int (g_mnr g) with
-                        | Some n => (start, Some n)
-                        | None => (qz default_teletext_rows, None)     (* self.start_offset = DEFAULT_TELETEXT_ROWS *)
+                        | Some n => n
+                        | None => default_teletext_rows       (* except ValueError: self.max_row_count = DEFAULT_TELETEXT_ROWS *)
                         end
-        | MrInt n => if teletext then (start, Some default_teletext_rows) else (start, Some n)
+        | MrInt n => if teletext then default_teletext_rows else n
         end in
       inl (mkDatafile fps (g_cct g) teletext tti_count lang start rows)
   end.
@@ -133,11 +132,11 @@ Record state := mkState { st_in_ext : bool ; st_tf : list Z ; st_last_sn : optio
                           st_regions : list region }.
 Definition state0 : state := mkState false [] None [] None [].
 
-(* `tti.SN is not self.last_sn`: object identity of ints; CPython shares the objects of -5..256 only *)
-Definition sn_is_not (identity : bool) (sn : Z) (last : option Z) : bool :=
+(* `tti.SN != self.last_sn` (last_sn is None before the first paragraph) *)
+Definition sn_differs (sn : Z) (last : option Z) : bool :=
   match last with
   | None => true
-  | Some l => if identity then (256 <? sn) || negb (sn =? l) else negb (sn =? l)
+  | Some l => negb (sn =? l)
   end.
 
 Fixpoint div_add (divs : list (Z * list para)) (sgn : Z) (p : para) : list (Z * list para) :=
@@ -175,7 +174,7 @@ Definition region_for (max_rows vp : Z) (tf : list Z) (dh : bool) : option regio
                    ((qz (vp + lc * lh - 1) / qz max_rows) * qz safe_area_height)%Q true).
 
 (* process_tti_block *)
-Definition process_tti (identity : bool) (f : datafile) (s : state) (t : tti) : state + error :=
+Definition process_tti (f : datafile) (s : state) (t : tti) : state + error :=
   if (239 <? t_ebn t) && (t_ebn t <? 255) then inl s else
   let tf := (if st_in_ext s then st_tf s else []) ++ strip_8f (t_tf t) in
   let dh := has_double_height_char tf in
@@ -187,22 +186,18 @@ Definition process_tti (identity : bool) (f : datafile) (s : state) (t : tti) : 
   if q_lt end_time begin_time then inl s0 else
   (* a new subtitle *)
   let s1 : state + error :=
-    if sn_is_not identity (t_sn t) (st_last_sn s) && ((t_cs t =? 0) || (t_cs t =? 1)) then
+    if sn_differs (t_sn t) (st_last_sn s) && ((t_cs t =? 0) || (t_cs t =? 1)) then
       let divs := commit s in
       let divs := if has_div divs (t_sgn t) then divs else divs ++ [(t_sgn t, [])] in
       let align := if t_jc t =? 1 then 0 else if t_jc t =? 3 then 2 else 1 in
       let font_size := if f_teletext f && negb dh then default_single_height_font_size_pct
                        else default_double_height_font_size_pct in
-      match f_max_rows f with
-      | None => inr EAttribute                      (* self.max_row_count was never assigned *)
-      | Some max_rows =>
-          match region_for max_rows (t_vp t) tf dh with
-          | None => inr EZeroDiv
-          | Some r =>
-              let '(ri, rs) := get_region (st_regions s) r in
-              inl (mkState false tf (Some (t_sn t)) divs
-                           (Some (t_sgn t, mkPara ri align font_size default_line_height_pct None [])) rs)
-          end
+      match region_for (f_max_rows f) (t_vp t) tf dh with
+      | None => inr EZeroDiv
+      | Some r =>
+          let '(ri, rs) := get_region (st_regions s) r in
+          inl (mkState false tf (Some (t_sn t)) divs
+                       (Some (t_sgn t, mkPara ri align font_size default_line_height_pct None [])) rs)
       end
     else inl s0 in
   match s1 with
@@ -224,7 +219,7 @@ Definition process_tti (identity : bool) (f : datafile) (s : state) (t : tti) : 
   end.
 
 (* reader.to_model: the loop over 128-byte reads, then progress_callback(i / tti_count) *)
-Fixpoint read_blocks (fuel : nat) (identity : bool) (f : datafile) (s : state) (bs : list Z) : state + error :=
+Fixpoint read_blocks (fuel : nat) (f : datafile) (s : state) (bs : list Z) : state + error :=
   match fuel with
   | O => inl s
   | S k =>
@@ -233,9 +228,9 @@ Fixpoint read_blocks (fuel : nat) (identity : bool) (f : datafile) (s : state) (
       | _ =>
           let buf := firstn 128 bs in
           if negb (Nat.eqb (length buf) 128) then inr EStruct else
-          match process_tti identity f s (unpack_tti buf) with
+          match process_tti f s (unpack_tti buf) with
           | inr e => inr e
-          | inl s' => if f_tti_count f =? 0 then inr EZeroDiv else read_blocks k identity f s' (skipn 128 bs)
+          | inl s' => if f_tti_count f =? 0 then inr EZeroDiv else read_blocks k f s' (skipn 128 bs)
           end
       end
   end.
@@ -249,17 +244,14 @@ Definition finish (f : datafile) (cfg : config) (s : state) : sdoc :=
         (match cf_font_stack cfg with Some fs => fs | None => default_font_stack end)
         (st_regions s) (map snd (commit s)).
 
-Definition reader_gen (identity : bool) (file : list Z) (cfg : config) : outcome :=
+Definition reader_model (file : list Z) (cfg : config) : outcome :=
   let g := firstn 1024 file in
   if negb (Nat.eqb (length g) 1024) then Err EStruct else
   match init (unpack_gsi g) cfg with
   | inr e => Err e
   | inl f =>
-      match read_blocks (S (length file)) identity f state0 (skipn 1024 file) with
+      match read_blocks (S (length file)) f state0 (skipn 1024 file) with
       | inr e => Err e
       | inl s => Ok (finish f cfg s)
       end
   end.
-
-(* the code as it is: `is not` on ints *)
-Definition reader_model : list Z -> config -> outcome := reader_gen true.
